@@ -495,6 +495,12 @@ def c10(tier):
         run.submit(pair_job, "add-n%d" % n, {"cfgs": cf, "alphabet": B, "pair_alphabet": [-1, 0, 1], "combos": combos, "unit": 1, "maxlen": L})
         for a in ([-2, 1], [3, 1], [0, 1], [1, 3], [1000, 1], [1, 1000]):
             rel_job(run, "homog-n%d-a%d_%d" % (n, a[0], a[1]), "C10", cf, [-2, 0, 1, 3], 1, min(L + 1, 6), a, [0, 1], "scale")
+    # superposition on the optimised build, in the f32 instantiation, and for chains of linear views (which are linear)
+    cf2 = c10_cfgs(2) + LAG[:2]
+    run.submit(pair_job, "add-release", {"cfgs": cf2, "alphabet": B, "pair_alphabet": [-1, 0, 1], "combos": combos, "unit": 1, "maxlen": 4}, profile="release")
+    run.submit(pair_job, "add-f32", {"cfgs": cf2, "alphabet": B, "pair_alphabet": [-1, 0, 1], "combos": combos, "unit": 1, "maxlen": 4, "float": "f32", "eps": [1, 10000]})
+    chl = [dict(o, c=[i]) for o in (sma(2), ema(2), {"k": "SuperSmoother", "n": 2}, {"k": "Alma", "n": 2}) for i in (ema(2), {"k": "Cumulative", "n": 2}, {"k": "CyberCycle", "n": 2}, LAG[1])]
+    run.submit(pair_job, "add-chains", {"cfgs": chl, "alphabet": B, "pair_alphabet": [-1, 0, 1], "combos": combos, "unit": 1, "maxlen": 4})
     # the same stream in units of 2^-120 and 2^100 (answers converted back exactly): a linear view must answer bit-identically
     for n in (1, 2, 3):
         cf = c10_cfgs(n) + (LAG if n == 1 else [])
